@@ -240,7 +240,7 @@ func twoSiteFamily() []grammarAlts {
 	}
 	nbrs := []func() *peg.Expr{func() *peg.Expr { return lit("b") }, func() *peg.Expr { return lit("c") }, func() *peg.Expr { return peg.Cls(false, false, "c") }, func() *peg.Expr { return peg.LitI("c") }, func() *peg.Expr { return lit("bc") },
 		// neighbours that bring RANGES of their own (with and without i): the merged class of each site has its own range table
-		func() *peg.Expr { return peg.Cls(false, true, "c-c") }, func() *peg.Expr { return peg.Cls(false, true, "b-b") }, func() *peg.Expr { return peg.Cls(false, false, "c-c") }}
+		func() *peg.Expr { return peg.Cls(false, true, "b-c") }, func() *peg.Expr { return peg.Cls(false, true, "a-c") }, func() *peg.Expr { return peg.Cls(false, false, "b-c") }}
 	for _, lf := range leafs {
 		for xi, x := range nbrs {
 			for yi, y := range nbrs {
